@@ -67,6 +67,12 @@ impl Sink {
         let replay = serde_json::json!({"mode": "hist", "step": r.step, "monitor": r.viol.monitor, "op": r.viol.op, "history": r.history});
         self.viol(&r.viol.props, &sig, &r.viol.detail, replay);
     }
+    /// `evals`: executions under monitors; `distinct`: distinct non-trivial cases (measured)
+    pub fn finish_counts(&self, mode: &str, evals: u64, distinct: u64, stats: serde_json::Value) {
+        let line = serde_json::json!({"t": "stats", "mode": mode, "evals": evals, "distinct": distinct, "sigs": self.seen, "stats": stats});
+        println!("{}", line);
+        std::io::stdout().flush().ok();
+    }
     pub fn finish(&self, mode: &str, stats: serde_json::Value) {
         let line = serde_json::json!({"t": "stats", "mode": mode, "sigs": self.seen, "stats": stats});
         println!("{}", line);
@@ -134,7 +140,7 @@ pub fn mode_hist(a: &Args) -> i32 {
     let mut journal = Journal::open(a);
     let mut stats = Stats::default();
     let mut sink = Sink::default();
-    let mut i = 0u64;
+    let mut i = a.u("start", 0);
     while stats.ops < max_ops && i < max_eps {
         let idx = i;
         i += 1;
@@ -160,7 +166,7 @@ pub fn mode_hist(a: &Args) -> i32 {
         }
         journal.line("EPDONE");
     }
-    sink.finish("hist", stats.to_json());
+    sink.finish_counts("hist", stats.ops, stats.state_op.len() as u64, stats.to_json());
     0
 }
 
@@ -188,7 +194,7 @@ pub fn mode_replay(a: &Args) -> i32 {
             for r in &reports {
                 sink.report(r);
             }
-            sink.finish("replay", stats.to_json());
+            sink.finish_counts("replay", stats.ops, stats.state_op.len() as u64, stats.to_json());
         }
         other => {
             return crate::replay_other(other, &rp, a, &mut sink);
